@@ -15,12 +15,18 @@ Over ALL histories (induction on the list of operations):
     removed signature alone (`use_notated_resets`, `beat_ops_skip_removed`);
   * **`rebuild_same_tables`**: building a fresh part from what is on the timeline (elements kind by kind in table
     order, with their stored musical beats, then the beat mode) gives the same tables, time points and beat mode -
-    and, when the quarter-duration table is reproduced, the same description, hence the same six maps
-    (`rebuild_same_maps`): the maps depend on what is on the timeline now, not on how it got there.
+    and, when the quarter-duration table is reproduced, the same description, hence the same six maps: the maps
+    depend on what is on the timeline now, not on how it got there.
+  * round 6: the table IS reproduced whenever it has no redundant entry (`rebuild_qd_normal`,
+    `rebuild_same_description_normal`, `rebuild_any_history_normal`; `qd_head_zero`: the table of every history
+    starts at 0, which is what the harness's fresh build `Part(quarter_duration = first value)` relies on);
+    `rebuild_same_maps`: the signature / key / clef maps of the fresh build are the same functions for EVERY history
+    and table, the three measure maps as soon as `divs_per_beat` is the same.
 -/
 import PartituraModel.Proofs.C10Hist
 import PartituraModel.Proofs.C10Part
 import PartituraModel.Props.C10Order
+import PartituraModel.Props.C10Part
 
 namespace C10
 open Model Model.StepMap
@@ -163,6 +169,62 @@ theorem ts_after_history (s : HPart) (f l x : Int) (hsp : (describe s).part.span
         | none => (describe s).part.ts.head?.map fun sg => (sg.beats, sg.beatType, sg.mb) := by
   rw [hsp]
   exact ts_coincident f l x hx _ (tables_in_time_order s).1 hne
+
+/-- **`clef_after_history`** (round 6): the same for `clef_map`, per staff - after ANY history the row of staff `i+1`
+    is the clef of that staff that starts latest at or before `x` (among coincident ones the one added last), the
+    first clef of that staff before all of them; the order of the clef table is derived, not assumed -/
+theorem clef_after_history (s : HPart) (f l x : Int) (hsp : (describe s).part.span = some (f, l)) (hx : f ≤ x)
+    (rows : Tbl ClefV) (hr : clefRows (describe s).clefs = some rows) (i : Nat)
+    (hi : i < numberOfStaves ((describe s).clefs.map (·.2.1) ++ otherStaffs (describe s).others))
+    (hne : rows.filter (fun r => r.2.1 = (i : Int) + 1) ≠ []) :
+    ∃ res, clefMap (describe s).part.span (describe s).clefs (otherStaffs (describe s).others) x = some res ∧
+      res[i]? = some (match (upTo (rows.filter fun r => r.2.1 = (i : Int) + 1) x).getLast? with
+        | some e => some e.2
+        | none => (rows.filter fun r => r.2.1 = (i : Int) + 1).head?.map (·.2)) := by
+  rw [hsp]
+  exact clef_coincident f l x hx _ _ rows hr (clefRows_sorted _ rows hr (tables_in_time_order s).2.2.1) i hi hne
+
+/-- **`measures_ordered_after_history`** (round 6): the hypothesis `Ordered` of `measure_spec` / `number_spec` /
+    `metrical_position_no_tiling` ("measures in time order without overlap") from what the user controls alone: when
+    the measures on the timeline are non-empty and pairwise disjoint - in whatever order they were added, removed
+    and re-added - the table the maps read lists them one after the other -/
+theorem measures_ordered_after_history (s : HPart) (hpos : ∀ m ∈ (describe s).part.ms, m.1 < m.2.1)
+    (hdis : (describe s).part.ms.Pairwise fun a b => a.2.1 ≤ b.1 ∨ b.2.1 ≤ a.1) :
+    Ordered (bars (describe s).part) := by
+  unfold bars
+  apply ordered_of_disjoint
+  · intro m hm
+    obtain ⟨m', hm', rfl⟩ := List.mem_map.mp hm
+    exact hpos m' hm'
+  · rw [List.pairwise_map]
+    exact (tables_in_time_order s).2.2.2
+  · rw [List.pairwise_map]
+    exact hdis
+
+/-- **`measure_after_history`** (round 6): end to end - after ANY history, for disjoint non-empty measures on the
+    timeline and a position `x` inside the `i`-th of them (in time order), `measure_map(x)` is that measure's extent
+    (the first one with its pickup-corrected start) and `metrical_position_map(x)[0]` the distance from that start -/
+theorem measure_after_history (s : HPart) (x : Int) (hr : raisesP (describe s).part = false)
+    (hpos : ∀ m ∈ (describe s).part.ms, m.1 < m.2.1)
+    (hdis : (describe s).part.ms.Pairwise fun a b => a.2.1 ≤ b.1 ∨ b.2.1 ≤ a.1)
+    (i : Nat) (s0 e : Int) (hi : (bars (describe s).part)[i]? = some (s0, e)) (hs : s0 ≤ x) (he : x < e) :
+    measureMapP (describe s).part x
+      = some (some (if i = 0 then pickupStart s0 e (beatsPerBar (describe s).part) (divsPerBeat (describe s).part)
+                    else s0, e)) ∧
+    (metricalMapP (describe s).part x).map (·.1)
+      = some (x - (if i = 0 then pickupStart s0 e (beatsPerBar (describe s).part) (divsPerBeat (describe s).part)
+                   else s0)) :=
+  ⟨measure_spec_composed _ x hr (measures_ordered_after_history s hpos hdis) i s0 e hi hs he,
+   metrical_position_composed_no_tiling _ x hr (measures_ordered_after_history s hpos hdis) i s0 e hi hs he⟩
+
+/-- … and `measure_number_map(x)` is that measure's number -/
+theorem number_after_history (s : HPart) (x : Int) (hr : raisesP (describe s).part = false)
+    (hpos : ∀ m ∈ (describe s).part.ms, m.1 < m.2.1)
+    (hdis : (describe s).part.ms.Pairwise fun a b => a.2.1 ≤ b.1 ∨ b.2.1 ≤ a.1)
+    (filled : List Int) (hf : allSome (fillNumbers ((describe s).part.ms.map (·.2.2))) = some filled)
+    (i : Nat) (s0 e n : Int) (hi : (describe s).part.ms[i]? = some (s0, e, some n)) (hs : s0 ≤ x) (he : x < e) :
+    measureNumberMapP (describe s).part x = some (some n) :=
+  number_spec_composed _ x hr (measures_ordered_after_history s hpos hdis) filled hf i s0 e n hi hs he
 
 /-! ### the beat-mode switches -/
 
@@ -348,6 +410,136 @@ theorem rebuild_same_description_const_qd (q0 : Nat) (s : HPart) (hq : s.qd = [(
     all_goals first | (intro h; cases h)
     split at hop <;> simp at hop
 
+/-! ### round 6: the quarter-duration table of the fresh build; the maps of the fresh build -/
+
+/-- **`qd_head_zero`**: after ANY history whose `set_quarter_duration` calls are at times >= 0 the quarter-duration
+    table starts with an entry at 0 and all other entries are later (the fresh build of the harness is
+    `Part(quarter_duration = that first value)` followed by one `set_quarter_duration` per later entry) -/
+theorem qd_head_zero (q0 : Nat) (ops : List HistOp) (hv : ∀ t q, HistOp.setQD t q ∈ ops → 0 ≤ t) :
+    ∃ q rest, (hpRun q0 ops).qd = (0, q) :: rest ∧ ∀ e ∈ rest, 0 < e.1 := by
+  unfold hpRun
+  have h0 : ∃ q rest, (hpInit q0).qd = (0, q) :: rest ∧ ∀ e ∈ rest, 0 < e.1 := ⟨q0, [], rfl, by simp⟩
+  generalize hpInit q0 = s at h0
+  induction ops generalizing s with
+  | nil => exact h0
+  | cons op rest ih =>
+    apply ih (fun t q h => hv t q (List.mem_cons_of_mem _ h))
+    obtain ⟨a, r, hq, hr⟩ := h0
+    cases op with
+    | setQD t q =>
+      have ht : 0 ≤ t := hv t q (List.mem_cons_self ..)
+      simp only [hpStep, hq, TimeMap.setQD]
+      unfold TimeMap.setQDAux
+      by_cases h1 : (0 : Int) < t
+      · rw [if_pos h1]
+        refine ⟨a, _, rfl, ?_⟩
+        intro e he
+        rcases mem_setQDAux t q r (some a) e he with he | he
+        · exact hr e he
+        · rw [he]; exact h1
+      · have : (0 : Int) = t := by omega
+        rw [if_neg h1, if_pos this]
+        exact ⟨q, r, by rw [this], hr⟩
+    | new id t k mb => exact ⟨a, r, hq, hr⟩
+    | readd id => exact ⟨a, r, hq, hr⟩
+    | remove id => exact ⟨a, r, hq, hr⟩
+    | setMB tbl => exact ⟨a, r, hq, hr⟩
+    | useMusical tbl =>
+      refine ⟨a, r, ?_, hr⟩
+      simp only [hpStep]
+      split <;> exact hq
+    | useNotated =>
+      refine ⟨a, r, ?_, hr⟩
+      simp only [hpStep]
+      split <;> exact hq
+    | query => exact ⟨a, r, hq, hr⟩
+
+/-- the quarter-duration table of the fresh build `Part(quarter_duration = q)` + one `set_quarter_duration` per later
+    entry: the replay of those entries -/
+theorem rebuild_qd_replay (s : HPart) (q : Nat) (rest : List (Int × Nat)) (hq : s.qd = (0, q) :: rest) :
+    (hpRun q (rebuildOps (describe s))).qd = replayQD [(0, q)] rest := by
+  have hd : (describe s).part.qd = (0, q) :: rest := hq
+  have hops : rebuildOps (describe s) = (rest.map fun e => HistOp.setQD e.1 e.2)
+      ++ ((describe s).part.ts.map (fun s => HistOp.new 0 s.t (.ts s.beats s.beatType) (some s.mb))
+        ++ (describe s).kss.map (fun e => HistOp.new 0 e.1 (.ks e.2.1 e.2.2) none)
+        ++ (describe s).clefs.map (fun c => HistOp.new 0 c.1 (.clef c.2.1 c.2.2.1 c.2.2.2.1 c.2.2.2.2) none)
+        ++ (describe s).part.ms.map (fun m => HistOp.new 0 m.1 (.measure m.2.1 m.2.2) none)
+        ++ (describe s).others.map (fun o => HistOp.new 0 o.1 (.other o.2.1 o.2.2) none)
+        ++ (if (describe s).part.musical then [HistOp.useMusical []] else [])) := by
+    unfold rebuildOps
+    rw [hd]
+    simp only [List.drop_succ_cons, List.drop_zero, List.append_assoc]
+  rw [hops, hpRun_append, foldl_no_setQD_qd]
+  · unfold hpRun
+    rw [foldl_setQD_qd]
+    rfl
+  · intro op hop t q'
+    simp only [List.mem_append, List.mem_map] at hop
+    rcases hop with ((((⟨_, _, rfl⟩ | ⟨_, _, rfl⟩) | ⟨_, _, rfl⟩) | ⟨_, _, rfl⟩) | ⟨_, _, rfl⟩) | hop
+    all_goals first | (intro h; cases h)
+    split at hop <;> simp at hop
+
+/-- the fresh build reproduces a quarter-duration table that has no redundant entry -/
+theorem rebuild_qd_normal (s : HPart) (q : Nat) (rest : List (Int × Nat)) (hq : s.qd = (0, q) :: rest)
+    (hn : QDNormal s.qd) : (hpRun q (rebuildOps (describe s))).qd = s.qd := by
+  rw [rebuild_qd_replay s q rest hq, hq]
+  exact replayQD_normal rest [] (0, q) (hq ▸ hn) (by simp)
+
+/-- **`rebuild_same_description_normal`**: for a part whose quarter-duration table has no redundant entry (times
+    increase, every change changes the value), the fresh build `Part(quarter_duration = first value)` + the later
+    changes + the elements on the timeline + the beat mode has the SAME description - hence the same six maps.
+    `rebuild_same_description_const_qd` is the special case of a table with one entry. -/
+theorem rebuild_same_description_normal (s : HPart) (q : Nat) (rest : List (Int × Nat)) (hq : s.qd = (0, q) :: rest)
+    (hn : QDNormal s.qd) : describe (hpRun q (rebuildOps (describe s))) = describe s :=
+  rebuild_same_description q s (rebuild_qd_normal s q rest hq hn)
+
+/-- … for the part ANY history leaves (`set_quarter_duration` at times >= 0): the only side condition is the absence
+    of redundant quarter-duration entries -/
+theorem rebuild_any_history_normal (q0 : Nat) (ops : List HistOp) (hv : ∀ t q, HistOp.setQD t q ∈ ops → 0 ≤ t)
+    (hn : QDNormal (hpRun q0 ops).qd) :
+    ∃ q, describe (hpRun q (rebuildOps (describe (hpRun q0 ops)))) = describe (hpRun q0 ops) := by
+  obtain ⟨q, rest, hq, _⟩ := qd_head_zero q0 ops hv
+  exact ⟨q, rebuild_same_description_normal _ q rest hq hn⟩
+
+/-- **`rebuild_same_maps`**: the maps of a fresh build of what is on the timeline, for EVERY history and every
+    quarter-duration table (redundant entries or not): `time_signature_map`, `key_signature_map`, `clef_map` (and
+    the number of staves) are the same functions with no side condition - they read the tables and the span only;
+    the three measure maps read the quarter durations through `divs_per_beat` alone: when the fresh build measures
+    the same divisions per beat (it does whenever the table is reproduced, `rebuild_qd_normal`; in general that is
+    property C02: a redundant entry does not change the beat map) they are the same functions too -/
+theorem rebuild_same_maps (q : Nat) (s : HPart) (x : Int) :
+    tsMapE (describe (hpRun q (rebuildOps (describe s)))).part.span
+        (describe (hpRun q (rebuildOps (describe s)))).part.ts x
+      = tsMapE (describe s).part.span (describe s).part.ts x ∧
+    ksMap (describe (hpRun q (rebuildOps (describe s)))).part.span
+        (describe (hpRun q (rebuildOps (describe s)))).kss x
+      = ksMap (describe s).part.span (describe s).kss x ∧
+    clefMap (describe (hpRun q (rebuildOps (describe s)))).part.span
+        (describe (hpRun q (rebuildOps (describe s)))).clefs
+        (otherStaffs (describe (hpRun q (rebuildOps (describe s)))).others) x
+      = clefMap (describe s).part.span (describe s).clefs (otherStaffs (describe s).others) x ∧
+    (divsPerBeat (describe (hpRun q (rebuildOps (describe s)))).part = divsPerBeat (describe s).part →
+      measureMapP (describe (hpRun q (rebuildOps (describe s)))).part x = measureMapP (describe s).part x ∧
+      measureNumberMapP (describe (hpRun q (rebuildOps (describe s)))).part x
+        = measureNumberMapP (describe s).part x ∧
+      metricalMapP (describe (hpRun q (rebuildOps (describe s)))).part x = metricalMapP (describe s).part x) := by
+  obtain ⟨hts, hms, hks, hcl, hot, hmu, hnp, hsp⟩ := rebuild_same_tables q s
+  refine ⟨by rw [hts, hsp], by rw [hks, hsp], by rw [hcl, hot, hsp], ?_⟩
+  intro hd
+  have hbars : bars (describe (hpRun q (rebuildOps (describe s)))).part = bars (describe s).part := by
+    unfold bars; rw [hms]
+  have hbpb : beatsPerBar (describe (hpRun q (rebuildOps (describe s)))).part = beatsPerBar (describe s).part := by
+    unfold beatsPerBar; rw [hts, hsp, hmu]
+  have hra : raisesP (describe (hpRun q (rebuildOps (describe s)))).part = raisesP (describe s).part := by
+    unfold raisesP TimeMap.raises TimeMap.beatMode timePart
+    simp only [hms, hnp, hts, hmu]
+  have htb : measureTableP (describe (hpRun q (rebuildOps (describe s)))).part = measureTableP (describe s).part := by
+    unfold measureTableP; rw [hsp, hbars, hbpb, hd]
+  refine ⟨?_, ?_, ?_⟩
+  · unfold measureMapP; rw [hra, htb]
+  · unfold measureNumberMapP; rw [hra, hsp, hms, hbpb, hd]
+  · unfold metricalMapP; rw [hra, htb, hbars]
+
 /-- a redundant quarter-duration entry (the duration at 5 set to 8 and then back to 4) is the one thing a fresh build
     does not reproduce: `set_quarter_duration` drops a change to the duration already in force (the maps are the
     same functions; property C02) -/
@@ -364,5 +556,25 @@ example : (describe (hpRun 4 exHist)).part.ts = [⟨0, 9, 8, 9⟩, ⟨0, 6, 8, 2
     ∧ (describe (hpRun 4 exHist)).part.musical = true ∧ (describe (hpRun 4 exHist)).part.npoints = 3
     ∧ describe (hpRun 4 (rebuildOps (describe (hpRun 4 exHist)))) = describe (hpRun 4 exHist) := by
   refine ⟨by decide, by decide, by decide, rebuild_same_description_const_qd 4 _ (by decide)⟩
+
+/-- non-vacuity (round 6): a history with three quarter-duration changes, one of them re-set; the table is normal,
+    the fresh build `Part(quarter_duration=6)` reproduces the description -/
+def exHistQ : List HistOp :=
+  [.setQD 8 3, .new 0 0 (.ts 3 4) none, .setQD 0 6, .new 1 0 (.measure 12 (some 1)) none, .setQD 8 5, .setQD 20 6]
+
+example : (hpRun 4 exHistQ).qd = [(0, 6), (8, 5), (20, 6)] ∧ QDNormal (hpRun 4 exHistQ).qd
+    ∧ describe (hpRun 6 (rebuildOps (describe (hpRun 4 exHistQ)))) = describe (hpRun 4 exHistQ) := by
+  refine ⟨by decide, by decide, rebuild_same_description_normal _ 6 [(8, 5), (20, 6)] (by decide) (by decide)⟩
+
+/-- non-vacuity (round 6): three measures added out of time order, one removed and re-added, a pickup -/
+def exHistM : List HistOp :=
+  [.new 0 16 (.measure 28 (some 2)) none, .new 1 0 (.measure 4 (some 0)) none, .new 2 4 (.measure 16 (some 1)) none,
+   .new 3 0 (.ts 3 4) none, .remove 2, .query, .readd 2]
+
+example : bars (describe (hpRun 4 exHistM)).part = [(0, 4), (4, 16), (16, 28)]
+    ∧ Ordered (bars (describe (hpRun 4 exHistM)).part)
+    ∧ measureMapP (describe (hpRun 4 exHistM)).part 2 = some (some (-8, 4))
+    ∧ measureNumberMapP (describe (hpRun 4 exHistM)).part 20 = some (some 2) := by
+  refine ⟨by decide, measures_ordered_after_history _ (by decide) (by decide), by decide +kernel, by decide +kernel⟩
 
 end C10
